@@ -146,6 +146,10 @@ def run(ctx):
                 cases.append(["tf " + materialize(seq)])
         for seq in (["E0g"], ["T+", "E0g"], ["S+", "T+", "E0g", "E1"], ["T+", "E0g", "T+", "E1"], ["S+", "E0g", "S-"], ["T+", "E1", "E0g", "X"]):
             cases.append(["tf " + materialize(seq)])
+        # many failing tests / suites: the exit status is a failure status however many there are (255, 256, 257, 512 ...)
+        for nfail in (255, 256, 257, 512, 1024):
+            cases.append(["tf " + materialize(["T+", "E0"] * nfail)])
+            cases.append(["tf " + materialize(["S+", "E0"] * (nfail // 2) + ["T+", "E0"] * (nfail - nfail // 2))])
         ctx.exhaustive = True
         ctx.extra_cov["exhaustive_script_length"] = L
         r = ctx.rng
